@@ -784,8 +784,8 @@ class DNA(symbolic.Object):
           f'Argument \'spec\' must be a `pg.DNASpec` object. '
           f'Encountered: {spec!r}.')
 
-    if self._spec is spec:
-      return self
+    # NOTE: the DNA may have been changed since it was bound to `spec`, so it is
+    # validated again.
 
     def _use_spec_for_child_choices(spec: DNASpec, children: List[DNA]):
       """Use spec for child choices."""
